@@ -438,7 +438,10 @@ def build(prog):
         build_node(run, n, None)
     if prog.get("do_args"):
         # settings handed to do()/ado() instead of the constructor (doers=, limit=, tyme=)
-        kwa = dict(real=bool(prog.get("real", False)))
+        # the Doist may carry a stale tyme/limit from construction or an earlier run; do() arguments override them
+        kwa = dict(real=bool(prog.get("real", False)), tyme=prog.get("ctor_tyme", 0.0))
+        if prog.get("ctor_limit") is not None:
+            kwa["limit"] = prog["ctor_limit"]
         run.do_kwa = dict(doers=top, limit=prog.get("limit"), tyme=prog.get("tyme", 0.0))
     else:
         kwa = dict(real=bool(prog.get("real", False)), limit=prog.get("limit"), doers=top,
